@@ -367,7 +367,13 @@ func (vc *VC) slArr(v Val) string { return fmt.Sprintf("(%s_arr %s)", v.Sort, v.
 
 func (vc *VC) slIndex(v Val, i string) Val {
 	inf := vc.info(v.Sort)
-	return Val{T: fmt.Sprintf("(select %s %s)", vc.slArr(v), i), Sort: inf.Elem, GoT: inf.ElemT}
+	et := inf.ElemT
+	if t, ok := v.GoT.(types.Type); ok && t != nil {
+		if st, ok := t.Underlying().(*types.Slice); ok {
+			et = st.Elem()
+		}
+	}
+	return Val{T: fmt.Sprintf("(select %s %s)", vc.slArr(v), i), Sort: inf.Elem, GoT: et}
 }
 
 func (vc *VC) mkSlice(sort, arr, ln, isnil string) string {
@@ -380,7 +386,13 @@ func (vc *VC) mapDom(v Val, k string) string {
 
 func (vc *VC) mapVal(v Val, k string) Val {
 	inf := vc.info(v.Sort)
-	return Val{T: fmt.Sprintf("(select (%s_val %s) %s)", v.Sort, v.T, k), Sort: inf.Elem, GoT: inf.ElemT}
+	et := inf.ElemT
+	if t, ok := v.GoT.(types.Type); ok && t != nil {
+		if mt, ok := t.Underlying().(*types.Map); ok {
+			et = mt.Elem()
+		}
+	}
+	return Val{T: fmt.Sprintf("(select (%s_val %s) %s)", v.Sort, v.T, k), Sort: inf.Elem, GoT: et}
 }
 
 func (vc *VC) mapCard(v Val) string { return fmt.Sprintf("(%s_card %s)", v.Sort, v.T) }
